@@ -145,7 +145,7 @@ pub fn run_c06(args: &Args) -> Report {
     let mut rep = Report::new("C06", "M7", &args.replay_dir);
     let model = Model::new(&args.model, &args.work);
     let mut rng = Rng::new(args.seed.wrapping_mul(1000).wrapping_add(args.shard as u64).wrapping_add(0xC06));
-    let total = if args.thorough() { 6000 } else { 240 };
+    let total = if args.thorough() { 2400 } else { 240 };
     let n = total / args.shards.max(1);
     rep.rule = "generated 1-3-file projects (with dependencies between sources), built, then verified: untampered (must pass), and after each single-point tampering of each output incl. outputs of dependencies (flip first/middle/last byte, append, prepend, delete a byte, truncate by one / to a random prefix / to empty, insert a newline, append CRLF, delete the file), with the trailing-newline option flipped, and after a source edit. Oracles: verify ok <=> every output byte-equal to a fresh build of the same tree with the same options; verify never changes (inode, mtime, bytes) of any output; every run also compared with the model. distinct_nontrivial = distinct (tamper kind, position: requested file / dependency, verdict) combinations x project signatures.".to_string();
     let mut runner = Runner::new(args, "c06");
@@ -239,7 +239,7 @@ pub fn run_c07(args: &Args) -> Report {
     let mut rep = Report::new("C07", "M7", &args.replay_dir);
     let model = Model::new(&args.model, &args.work);
     let mut rng = Rng::new(args.seed.wrapping_mul(1000).wrapping_add(args.shard as u64).wrapping_add(0xC07));
-    let total = if args.thorough() { 8000 } else { 320 };
+    let total = if args.thorough() { 4000 } else { 320 };
     let n = total / args.shards.max(1);
     let known = load_known(args, "C07");
     rep.rule = "histories build -> clean, clean alone, clean twice, build -> remove some generated files -> clean, over generated projects incl. sources with erroneous directives, write-escaped directive text, temp targets in other directories; inputs: whole tree or a single source. Oracles: after build+clean over the same inputs the full tree snapshot (path -> bytes) equals the snapshot before the build; clean's verdict is ok; clean executes no command (marker log empty); clean removes no *.txtpp file and creates nothing. Leftovers that are all generated by dependencies outside clean's resolved inputs are the known finding F5. Every run also compared with the model.".to_string();
@@ -379,7 +379,7 @@ pub fn run_c08(args: &Args) -> Report {
     let mut rep = Report::new("C08", "M7", &args.replay_dir);
     let model = Model::new(&args.model, &args.work);
     let mut rng = Rng::new(args.seed.wrapping_mul(1000).wrapping_add(args.shard as u64).wrapping_add(0xC08));
-    let total = if args.thorough() { 6000 } else { 260 };
+    let total = if args.thorough() { 2400 } else { 260 };
     let n = total / args.shards.max(1);
     rep.rule = "generated projects x pre-states of every generated path (absent, stale text, empty, prefix of the right content cut at a random byte, cut inside a multi-byte character, random bytes incl. invalid UTF-8, right content plus a tail, already right), chosen independently per path, then build or needed-build; building twice; a CLI build killed with SIGKILL after a random delay followed by a rebuild. Oracle: the full tree after the build equals the tree of the reference build from the generated-file-free tree, same verdict; idempotence. Every run also compared with the model.".to_string();
     let mut runner = Runner::new(args, "c08");
@@ -463,7 +463,7 @@ pub fn run_c09(args: &Args) -> Report {
     let mut rep = Report::new("C09", "M7", &args.replay_dir);
     let model = Model::new(&args.model, &args.work);
     let mut rng = Rng::new(args.seed.wrapping_mul(1000).wrapping_add(args.shard as u64).wrapping_add(0xC09));
-    let total = if args.thorough() { 6000 } else { 260 };
+    let total = if args.thorough() { 2400 } else { 260 };
     let n = total / args.shards.max(1);
     rep.rule = "histories over generated projects: reference build; then per generated file one of {up to date, stale (other text / longer: right + tail / shorter: proper prefix / same length different bytes / non-UTF-8), missing}; then a needed-build (also build and verify for the temp rule). Oracles: needed-build verdict and every byte equal a normal build of the same tree in a scratch copy; outputs and temp files whose content was already correct keep (inode, mtime); stale ones are brought up to date. Every run also compared with the model.".to_string();
     let mut runner = Runner::new(args, "c09");
@@ -572,7 +572,7 @@ pub fn run_c10(args: &Args) -> Report {
     let mut rep = Report::new("C10", "M7", &args.replay_dir);
     let model = Model::new(&args.model, &args.work);
     let mut rng = Rng::new(args.seed.wrapping_mul(1000).wrapping_add(args.shard as u64).wrapping_add(0xC10));
-    let total = if args.thorough() { 12000 } else { 420 };
+    let total = if args.thorough() { 5000 } else { 420 };
     let n = total / args.shards.max(1);
     rep.rule = "generated projects (successful and failing, 25% with errors) with decoy files next to sources, in sub-directories and at near-miss names (out~, out.bak, out minus one char, <stem>.tmp, src.bak, dir/notes.txt) x modes {build, needed, verify, clean} from a fresh or an already built tree x inputs (whole tree recursive / non-recursive / single source) x write-escaped directive text naming decoys. Oracle: full-tree snapshot diff (bytes, inode, mtime, existence): only outputs of the project's sources and their temp targets may differ; verify leaves outputs untouched; clean creates nothing. Every run also compared with the model (incl. the touch set).".to_string();
     let mut runner = Runner::new(args, "c10");
